@@ -216,7 +216,7 @@ class Program:
         self._load()
         self._link()
         if normalise:
-            from .inline import _logger_names, normalise_numpy_idioms, normalise_self_conditional, normalise_walrus, normalise_match, normalise_dict_union, normalise_first_match, normalise_generator_functions, normalise_unzip_loops, normalise_accumulators, normalise_conditional_assignments, normalise_generator_arguments, normalise_ifexp, normalise_keys, normalise_suppress, strip_logging
+            from .inline import _logger_names, normalise_for_else, normalise_numpy_idioms, normalise_self_conditional, normalise_walrus, normalise_match, normalise_dict_union, normalise_first_match, normalise_generator_functions, normalise_unzip_loops, normalise_accumulators, normalise_conditional_assignments, normalise_generator_arguments, normalise_ifexp, normalise_keys, normalise_suppress, strip_logging
             loggers = {m.name: _logger_names(m.tree, m.resolve) for m in self.modules.values()}
             for fi in self.functions.values():
                 if fi.parent is None:
@@ -224,6 +224,7 @@ class Program:
                     normalise_numpy_idioms(fi.node)
                     normalise_match(fi.node)
                     normalise_walrus(fi.node)
+                    normalise_for_else(fi.node)
                     normalise_keys(fi.node)
                     normalise_suppress(fi.node, fi.module.resolve)
                     normalise_generator_functions(fi.node)
